@@ -110,6 +110,11 @@ func cmdCheck(args []string) int {
 		bo, boundedInfo = eng.runBounded(cliHarness, *repo, *verif, *tier, seed)
 		extraObls = append(extraObls, bo...)
 	}
+	if id == "C06" {
+		var bo []*Obligation
+		bo, boundedInfo = eng.runBounded(locTextHarness, *repo, *verif, *tier, seed)
+		extraObls = append(extraObls, bo...)
+	}
 	if len(work) == 0 && len(extraObls) == 0 {
 		return toolFailure("no contract carries property " + id)
 	}
@@ -297,6 +302,20 @@ func cmdCheck(args []string) int {
 	ev.Coverage["known_finding_lines"] = kfLines
 	if id == "C14" {
 		ev.Coverage["explanation"] = "reads-frame obligations decided by a def-use walk over the typed AST of every command function that calls TryCache (no SMT): each flag/positional-derived value read after the TryCache call must occur in the encodePayload tuple list, be computed only from such values, or be the input/output path or the no-cache switch. One obligation per (command, value). Typestate half: ioDelegate.Close/Commit are verified by contract (SMT) — an uncommitted entry is removed — and per command a structural obligation shows no error return is reachable after Commit."
+	}
+	if id == "C06" {
+		for k, v := range boundedInfo {
+			ev.Coverage[k] = v
+		}
+		nb := 0
+		for _, o := range all {
+			if o.Kind == "bounded" {
+				nb++
+			}
+		}
+		ev.Coverage["bounded_obligations"] = nb
+		ev.Level = "other"
+		ev.Coverage["explanation"] = "two parts: (1) proof: the join/order reduction (Push merge table, Join of two parts, Order, flattenLocations) is under contract and discharged by SMT for all inputs; (2) BOUNDED, not proved: the text half - every location within the bound stated in /verif/bounded/location_bounded_test.go is printed with String() and parsed back with AsLocation (the real go-pars grammar, outside the verified subset) and must come back as the same value (up to re-applying the reduction); obligations named gts.AsLocation/bounded:* are outcomes of that enumeration."
 	}
 	if id == "C15" {
 		for k, v := range boundedInfo {
